@@ -202,7 +202,7 @@ def run(prop, tier, seed, replay=None):
     if s["evaluations"] < 100:
         raise core.ToolError("vacuity guard: only %d executions recorded" % s["evaluations"])
     acc, rej, tstates, tgen = validate(trace, wd)
-    violations = []
+    violations = list(s.get("violations", []))
     other = {}
     for x in rej:
         p = attribute(x["event"])
